@@ -159,6 +159,27 @@ PartialIdx(inb) == SetToSortedSeq({i \in 1..Len(inb) : Reals(inb[i].occ) > 0 /\ 
 LeadFactor(b) == LET n == Len(b) r == Reals(b) IN IF r = 1 \/ r = n - 1 THEN n ELSE (n * (n - 1)) \div 2
 LeadGuard(inb) == LET P == PartialIdx(inb) IN SatProd([j \in 1..Len(P) |-> LeadFactor(inb[P[j]].occ)]) >= Need
 AllRealsLead(inb) == LET P == PartialIdx(inb) IN LeadGuard(inb) /\ \A j \in 1..Len(P) : RealsLead(inb[P[j]].occ)
+(* Per keyword: the sequence of slots a search reads is a function of where setup put that keyword's first block, and that   *)
+(* position is uniform over at least Alt alternatives (array cells for PiPtr / Pi2Lev, array slots under a fresh key for      *)
+(* SSE-1, the eligible buckets of the list's level for DP17 - the last, smallest, factor of DPFactorsLevel).  For a fixed set  *)
+(* of m observed keywords with Alt >= a the chance that ALL of them read the same slots in two independent setups is at most  *)
+(* a^-m; over all subsets of the n observed keywords it is at most 2^n * a^-m.  When that is below 2^-27 < 1/Need and the      *)
+(* index nevertheless shows it, those keywords are not placed at random (e.g. a placement that turns deterministic for one    *)
+(* level or above a size threshold while the rest still moves).                                                                 *)
+DPMinEligible(i, p, c) ==
+    LET f == DPFactorsLevel(i, DPItems(p, p, c, 1), N(p)) IN IF f = <<>> THEN 0 ELSE f[Len(f)]
+KwAlt(s, p, c, slots) ==
+    IF slots = <<>> THEN 0
+    ELSE IF s = "DP17.Pi" THEN (IF Len(slots[1]) = 2 THEN DPMinEligible(slots[1][1], p, c) ELSE 0)
+    ELSE IF s = "CGKO06.SSE1" THEN c.s
+    ELSE ArrayBlocks(s, p, c)
+KwFixedSet(s, p, c, run1, run2) ==
+    {i \in 1..Len(run1) : i <= Len(run2) /\ run1[i] # <<>> /\ run1[i] = run2[i] /\ KwAlt(s, p, c, run1[i]) >= 16}
+MovesKwFixed(s, p, c, run1, run2) ==
+    LET S == KwFixedSet(s, p, c, run1, run2) IN
+    IF S = {} THEN FALSE
+    ELSE LET a == CHOOSE x \in {KwAlt(s, p, c, run1[i]) : i \in S} : \A i \in S : x <= KwAlt(s, p, c, run1[i])
+         IN Cardinality(S) * FloorLog2(a) >= Len(run1) + 27
 MovesWhy(s, run1, run2, inb1, inb2) ==
     IF run1 = run2 THEN "Moves"
     ELSE IF s = "DP17.Pi" /\ (AllAppendOrder(inb1) \/ AllAppendOrder(inb2)) THEN "Moves:inbucket"
